@@ -11,8 +11,8 @@ a, b, c = V("a"), V("b"), V("c")
 SIG1 = ["a"]
 # revision conditionals over {a,b}: literal, compound, unfalsifiable, unverifiable
 RC2 = [(b, a), (N(b), a), (a, b), (N(a), N(b)), (b, N(a)), (a, TOP), (O(a, b), TOP), (A(a, b), O(a, b)), (N(A(a, b)), TOP),
-       (TOP, a), (BOT, a), (b, A(a, N(a)))]
-RC1 = [(a, TOP), (N(a), TOP), (TOP, a), (BOT, a), (a, a)]
+       (TOP, a), (BOT, a), (b, A(a, N(a))), (N(a), a), (b, N(b))]
+RC1 = [(a, TOP), (N(a), TOP), (TOP, a), (BOT, a), (a, a), (N(a), a), (a, N(a)), (N(a), N(a))]
 RC3 = [(b, a), (c, b), (N(c), a), (a, O(b, c)), (N(a), A(b, c)), (c, TOP), (TOP, c), (A(a, N(b)), N(c))]
 FIXED = [({}, {}), ({0: 0}, {}), ({0: 2}, {}), ({}, {0: 2}), ({0: 1}, {0: 1})]   # (fixed gamma-, fixed gamma+), key 0 = first index
 
@@ -68,7 +68,7 @@ def check_revision(res, prop, sig, table, rconds, idxs, gpz, fixed, how):
     fp = {idxs[k]: v for k, v in fixed[1].items() if k < len(idxs)}
     case = {"sig": list(sig), "prior": list(table), "rev": [forms.ctxt(x) for x in rconds], "rev_f": rconds, "indices": list(idxs),
             "gamma_plus_zero": gpz, "fixed_minus": {str(k): v for k, v in fm.items()}, "fixed_plus": {str(k): v for k, v in fp.items()},
-            "config": how, "tname": "gpz" if gpz else "free", "has_fixed": bool(fm or fp),
+            "config": how, "tname": "gpz" if gpz else "free", "has_fixed": bool(fm or fp), "several_conditionals": len(idxs) >= 2,
             "has_unfalsifiable": any(f == 0 for _v, f in sems.values()), "has_unverifiable": any(v == 0 for v, _f in sems.values())}
     res.evals += 1
     try:
